@@ -1,6 +1,7 @@
 package props
 
 import (
+	"os"
 	"fmt"
 	"go/types"
 	"strings"
@@ -139,20 +140,36 @@ func plCoverage(c *fw.Ctx, fn *ssa.Function) (scalars map[string]string, maps ma
 				case *ssa.Range:
 					// a pass over one side's map, or over a literal list holding both sides' maps
 					cands := []string{fw.Sig(x.X)}
-					if u, isU := x.X.(*ssa.UnOp); isU {
-						if ia, isIA := u.X.(*ssa.IndexAddr); isIA {
-							if al, isAl := ia.X.(*ssa.Alloc); isAl {
-								for _, ref := range *al.Referrers() {
-									if ia2, ok := ref.(*ssa.IndexAddr); ok {
-										for _, r2 := range *ia2.Referrers() {
-											if st, ok := r2.(*ssa.Store); ok && st.Addr == ssa.Value(ia2) {
-												cands = append(cands, fw.Sig(st.Val))
-											}
-										}
+					if os.Getenv("GMSL_DEBUG") != "" {
+						fmt.Printf("DEBUG range in %s: %T %s\n", fw.FuncName(fn), x.X, fw.Sig(x.X))
+					}
+					// a literal list (array or slice, by value or through its address) holding both
+					// sides' maps: every origin of the ranged value that names a side counts
+					direct := len(cands)
+					var collect func(v ssa.Value, depth int)
+					collect = func(root ssa.Value, depth int) {
+						fw.DerivesFrom(root, fw.FlowSpec{IsSource: func(v ssa.Value) bool {
+							if v != x.X {
+								if sd, _ := sideOf(fw.Sig(v)); sd != "" {
+									cands = append(cands, fw.Sig(v))
+								}
+							}
+							// the map is handed to a closure or an unexported helper as an argument
+							if p, isP := v.(*ssa.Parameter); isP && depth < 3 {
+								for _, a := range argsOfParam(c, p) {
+									if sd, _ := sideOf(fw.Sig(a)); sd != "" {
+										cands = append(cands, fw.Sig(a))
+									} else {
+										collect(a, depth+1)
 									}
 								}
 							}
-						}
+							return false
+						}})
+					}
+					collect(x.X, 0)
+					if len(cands) > direct {
+						cands = append(cands, "") // more than one candidate: a list, not a guarded single pass
 					}
 					for _, s := range cands {
 						side, fld := sideOf(s)
@@ -211,6 +228,11 @@ func checkC08(c *fw.Ctx) {
 		s, m := plCoverage(c, fam[name])
 		cov[name] = [2]map[string]string{s, m}
 		c.SawFn(name)
+	}
+	if os.Getenv("GMSL_DEBUG") != "" {
+		for _, name := range fw.SortedKeys(fam) {
+			fmt.Println("DEBUG cov", name, cov[name][0], cov[name][1])
+		}
 	}
 	c.Min("1 coverage comparison functions", len(fam), 4)
 	// callees of a column function inside the family count for it (V3 calls V2)
@@ -512,4 +534,48 @@ func checkV3AndParsers(c *fw.Ctx, t *versionTable) {
 	} else {
 		c.Undecided(rule, "integer parser", "not found")
 	}
+}
+
+// argsOfParam: the arguments bound to parameter p of a closure or unexported function at its
+// call sites (static calls, and calls of the closure value inside its parent).
+func argsOfParam(c *fw.Ctx, p *ssa.Parameter) []ssa.Value {
+	g := p.Parent()
+	idx := -1
+	for i, q := range g.Params {
+		if q == p {
+			idx = i
+		}
+	}
+	if idx < 0 || (g.Parent() == nil && g.Object() != nil && g.Object().Exported()) {
+		return nil
+	}
+	var out []ssa.Value
+	scan := func(f *ssa.Function) {
+		for _, call := range fw.Calls(f) {
+			cm := call.Common()
+			hit := cm.StaticCallee() == g
+			if !hit && cm.Value != nil {
+				if mc, ok := fw.Origin(cm.Value).(*ssa.MakeClosure); ok && mc.Fn == g {
+					hit = true
+				}
+			}
+			if !hit {
+				continue
+			}
+			// closures have no receiver slot; free variables are not parameters
+			if idx < len(cm.Args) {
+				out = append(out, cm.Args[idx])
+			}
+		}
+	}
+	if par := g.Parent(); par != nil {
+		for _, f := range fw.FamilyOf(par) {
+			scan(f)
+		}
+		return out
+	}
+	for _, f := range c.P.SrcFuncs() {
+		scan(f)
+	}
+	return out
 }
